@@ -247,7 +247,7 @@ def gen_params(name, r, meta, light=True):
 
 
 def default_meta(D):
-  counts = np.bincount(D.y, minlength=D.classes)
+  counts = np.bincount(D.y0, minlength=D.classes)
   return dict(d=D.d, n=D.n, classes=D.classes, min_class=int(counts.min()),
               n_tuples=len(getattr(D, "pairs_idx", [])))
 
@@ -311,7 +311,7 @@ def feasible(name, params, D):
     return False        # 'lda' init is documented for n_components <= n_classes - 1 only
   if name == "RCA_Supervised":
     cs, nch = params["chunk_size"], params["n_chunks"]
-    counts = np.bincount(D.y, minlength=D.classes)
+    counts = np.bincount(D.y0, minlength=D.classes)
     if nch * (cs - 1) < d + 2 or int(np.sum(counts // cs)) < nch:
       return False
   if name == "RCA" and (D.n_chunks < 2 or
